@@ -24,6 +24,8 @@ var corpus = []string{
 	"99999999999999999999", "0xFFFFFFFFFFFFFFFF", "0x7FFFFFFFFFFFFFFF", "1.5.3", "1..2", "1.e3", "1.5e", "1.5e+", "1.5ee3", "1e5e5", "0e0", "00", "0.0", "1a", "1.5a", "1e5a", "12é",
 	"/(/", "/a\\/b/", "/\\d/", "/[/", "//", "/", "/ /", "#c", "#c\n1", "# \xff", "1 #c", "1 # c\n 2", "", " ", "\n", "\t", "\x00", "a\x00b", "\r", "a\rb",
 	"'\\u{41}'", "\"\\u{1}\"", "'\\u{110000}'", "'\\u{}'", "'\\u{'", "'\\u'", "'\\u{41'", "'\\u{g}'", "\"\\$\"", "'\\$'", "\"\\'\"", "'\\\"'", "'\\''", "\"\\\"\"",
+	"Array[Deferred('')]", "Integer[Object[{type_parameters => {a => Integer}}]]", "Object[{type_parameters => {a => Integer}}]", "Enum[[a, b, c], true]", "Enum[[a, b], c, d]",
+	"Enum[[a, b, c], 3]", "Pattern[[a, b]]", "Runtime[a, b, c]",
 	"Tuple[[Integer], 3]", "a.b", "a . b", ".", "=", "= >", "=>", "a = b", "}", ")", "]", "a]", "a)", "a}", "((()))", "[[[[]]]]", "{{}=>{}}", "{[]=>()}",
 }
 
